@@ -14,7 +14,7 @@ FUNCTIONS = ["xgcm.grid_ufunc:_reattach_coords", "xgcm.padding:_strip_all_coords
              "xgcm.grid:Grid._1d_grid_ufunc_dispatch", "xgcm.grid_ufunc:apply_as_grid_ufunc", "xgcm.grid_ufunc:_apply"]
 BOUNDS = {
     "quick": {"dataset": "axes X (center,left,outer,inner) and Y (center,left), extra dim t; non-dimension coordinates 0-D, 1-D on each X position, 2-D (y,x-left), 3-D, all with symbolic values and attributes; with and without dimension coordinates",
-              "operations": "diff/interp/min/max on padded (center->left, left->center, center->outer) and unpadded (outer->center, center->inner) paths, cumsum (4 shifts), keep_coords True/False; the same through metric_weighted calls, calls over two axes, and apply_as_grid_ufunc (N=2)",
+              "operations": "diff/interp/min/max on padded (center->left, left->center, center->outer) and unpadded (outer->center, center->inner) paths, cumsum (4 shifts), keep_coords True/False; the same through metric_weighted calls, calls over two axes, apply_as_grid_ufunc and interp_like with a template carrying other labels (N=2)",
               "inputs": "carrying the dataset's coordinates, none, or other labels (symbolic non-index coordinates, shifted index labels)", "N": [2, 3]},
     "thorough": {"N": [2, 3, 4], "operations": "variants also at N=3"},
 }
@@ -40,7 +40,7 @@ def cases(tier):
         for dimcoords in ("all", "none", "some"):
             for frm, to in SHIFTS:
                 for inp in ("dataset", "none"):
-                    for variant in ("mw", "axes2", "ufunc"):
+                    for variant in ("mw", "axes2", "ufunc", "interp_like"):
                         out.append(dict(N=N, dimcoords=dimcoords, frm=frm, to=to, inp=inp, variant=variant))
     return out
 
@@ -112,8 +112,14 @@ def case(W, cfg):
         olds, news = [old, "yc"], [new, "yg"]
     elif variant == "ufunc":
         ops = ("ufunc",)
+    elif variant == "interp_like":
+        ops = ("interp_like",)
+    # a template array at the target position that carries labels of its own (never the grid's)
+    like = xr.DataArray(np.zeros((2, sizes[new])), dims=["yc", new], coords={new: np.arange(sizes[new]) * 10.0 + 100.0, "yc": [7.0, 8.0]}, name="template")
 
     def call(op, arr, keep):
+        if op == "interp_like":
+            return grid.interp_like(arr, like)
         if op == "ufunc":
             r = grid.apply_as_grid_ufunc(lambda x: x[..., 1:] - x[..., :-1], arr, axis=[("X",)], signature="(X:%s)->(X:%s)" % (frm, to),
                                          boundary_width={"X": UFUNC_WIDTHS[(frm, to)]}, keep_coords=keep)
@@ -121,7 +127,7 @@ def case(W, cfg):
         return getattr(grid, op)(arr, axis, to=to_arg, keep_coords=keep, **extra_kw)
 
     for op in ops:
-        for keep in (True, False):
+        for keep in ((False,) if op == "interp_like" else (True, False)):
             lab = "%s%s:%s->%s:keep=%s" % (op, "" if variant == "plain" else "[" + variant + "]", frm, to, keep)
             with warnings.catch_warnings():
                 warnings.simplefilter("ignore")
@@ -135,7 +141,7 @@ def case(W, cfg):
             W.require("dims", tuple(r.dims) == rdims, "%s: %s" % (lab, r.dims))
             if tuple(r.dims) != rdims:
                 continue
-            if op != "ufunc":
+            if op not in ("ufunc", "interp_like"):
                 W.require("name-kept", r.name == "tracer", "%s: name %r" % (lab, r.name))
             # values never depend on the input's labels
             W.equal("values-independent-of-input-labels:" + op, r.data, r_plain.data, detail=lab, record=keep)
